@@ -387,6 +387,10 @@ func (f *FailoverOf[V]) recentlyFailed(ctx context.Context, key []byte) error {
 }
 
 func (f *FailoverOf[V]) observeMutability(ctx context.Context, uVal, val V) {
+	if f.stat == nil {
+		return
+	}
+
 	equal := reflect.DeepEqual(val, uVal)
 	if !equal {
 		f.stat.Add(ctx, MetricChanged, 1, "name", f.config.Name)
